@@ -91,6 +91,23 @@ def guess_kind(line):
         return 'MockNeverCalled'
     if ': Expected ' in line and ' to match ' in line:
         return 'FailedVerification'
+    table = [
+        (': No mock implementation found.', 'NoMockImplementation'),
+        (': No function supplied for matching inputs for ', 'NoMatcherFunction'),
+        (': No matching call patterns.', 'NoMatchingCallPatterns'),
+        (': No output available for after matching ', 'NoOutputAvailableForCallPattern'),
+        (': Method matched in wrong order.', 'CallOrderNotMatchedForMockFn'),
+        (') out of range: There were no more ordered call patterns', 'CallOrderNotMatchedForMockFn'),
+        (': Method invoked in the correct order (', 'InputsNotMatchedInCallOrder'),
+        (': Cannot return value more than once from ', 'CannotReturnValueMoreThanOnce'),
+        (' cannot be unmocked as there is no function available to call.', 'CannotUnmock'),
+        (' has not been set up with default implementation delegation.', 'NoDefaultImpl'),
+        (' did not apply the answer function, this is a bug.', 'NotAnswered'),
+        (': Explicit panic from ', 'ExplicitPanic'),
+    ]
+    for frag, kind in table:
+        if frag in line:
+            return kind
     return 'Unknown'
 
 def canon_build_panic(msg):
